@@ -55,7 +55,7 @@ CLAIMED = {
             "DESIGN.md 3/C07"),
     "C08": ("Lean 4 proof: each search loop = find? of its traversal (lock-step induction); correspondence with falsy vertices and ==-but-not-identical values",
             "Theorems C08_bfs_eq_find, C08_dfsIterative_eq_find (every fuel), C08_dfsRecursive_eq_find (sufficient fuel), C08_first_match, C08_start_eligible, and C08_world_first_match (the three search ENTRY POINTS "
-            "on a world return find? of their traversal's listing for the attribute predicate). The model "
+            "on a world return find? of their traversal's listing for the attribute predicate), C08_any_value_needs_attribute, C08_nan_never_matches (== is the test: a sought value equal to everything still needs the attribute to be there; a value unequal to itself matches nothing). The model "
             "has no notion of vertex truthiness at all, so any dependence of the real code on it is a correspondence break (falsy Vertex subclass in the pool).",
             "Attribute values are modelled as ==-classes; Python's == on the value pool is trusted.", "DESIGN.md 3/C08"),
     "C19": ("Lean 4 proof: invariant LawSym over all histories + M=S refinement of the two mutually recursive setters; the complete one-step transition table of a 2x2 pool regenerated from the real setters on every run and re-proved equal to the model by kernel evaluation; exhaustive small-scope correspondence",
